@@ -211,7 +211,7 @@ func c17(tier string) {
 	// removed, whose environment is empty: every call must still return, the process must not be killed
 	if self := os.Getenv("VERIF_SELF"); self != "" {
 		envs := []string{"plain", "stderr-is-a-broken-pipe", "stdout-is-a-broken-pipe", "all-streams-closed", "stdout-stderr-to-/dev/full", "working-directory-removed", "empty-environment"}
-		tmpEnv, _ := os.MkdirTemp("", "c17env")
+		tmpEnv := lib.TempDir("c17env")
 		var plain string
 		for ei, env := range envs {
 			if ctx.IsShard() && ei%4 != ctx.ShardIndex()%4 && ei != 0 {
